@@ -29,6 +29,11 @@ def gtree_of(geom):
     if isinstance(geom, CellRef):
         return ('c', int(geom.cell))
     if isinstance(geom, (list, tuple)):
+        if geom and geom[0] == '^' and len(geom) == 2:
+            try:
+                return ('^', int(geom[1]))
+            except (TypeError, ValueError):
+                raise Unsupported('complement operand') from None
         if not geom or geom[0] not in ('*', ':'):
             raise Unsupported(f'operator {geom[:1]!r}')
         return (geom[0],) + tuple(gtree_of(arg) for arg in geom[1:])
@@ -54,6 +59,8 @@ def coq_gtree(tree):
         return f'GSurf {cz(tree[1])} {copt(tree[2], cz)}'
     if tree[0] == 'c':
         return f'GCell {cz(tree[1])}'
+    if tree[0] == '^':
+        return f'GCompl {cz(tree[1])}'
     op = 'OInter' if tree[0] == '*' else 'OUnion'
     return f'GNode {op} ' + clist('(' + coq_gtree(sub) + ')'
                                   for sub in tree[1:])
@@ -70,6 +77,34 @@ class Capture:
         self.unsupported = None
         self.depth = 0
         self.n_number_items = 0
+        # upstream phases (TRCL / lattice / FILL)
+        self.up = None          # dict once CellConversion exists
+        self.up_unsupported = None
+        self.ct_depth = 0
+        self.in_trcl = False
+        self.tids = {}
+        self.conv_live = None
+
+    def tid(self, transform):
+        if not transform:
+            return 0
+        key = tuple(transform)
+        if key not in self.tids:
+            self.tids[key] = len(self.tids) + 1
+        return self.tids[key]
+
+    def closure(self, conv, key):
+        '''Observed geometry of `key` and of every cell reachable from it
+        through CellRefs.'''
+        out, todo = {}, {key}
+        while todo:
+            k = todo.pop()
+            if k in out or k not in conv.dic_cell_mcnp:
+                continue
+            tree = gtree_of(conv.dic_cell_mcnp[k].geometry)
+            out[int(k)] = tree
+            gtree_cells(tree, todo)
+        return out
 
 
 @contextlib.contextmanager
@@ -78,13 +113,118 @@ def hooks(cap):
     from t4_geom_convert.Kernel.Volume.CellConversion import CellConversion
     from t4_geom_convert.Kernel.FileHandlers.Writer import WriteT4Geometry
     from t4_geom_convert import main as t4main
+    from t4_geom_convert.Kernel.FileHandlers.Parser.ParseMCNPCell import \
+        ParseMCNPCell
+    from collections import OrderedDict
     orig_number = CollectionDict.number_items
     orig_convert = CellConversion.pot_convert
+    orig_init = CellConversion.__init__
+    orig_trcl = CellConversion.apply_trcl
+    orig_ct = CellConversion.cell_transform
+    orig_setitem = CollectionDict.__setitem__
+    orig_parse = ParseMCNPCell.parse
+
+    class LoggingDict(OrderedDict):
+        '''The cell dictionary; reports the insertion of NEW keys made
+        outside the modelled functions (pot_fill's new cells).'''
+
+        def __setitem__(self, key, value):
+            if cap.up is not None and not cap.up.get('closed') \
+                    and cap.ct_depth == 0 and not cap.in_trcl \
+                    and key not in self:
+                cap.up['ops'].append(('fill', int(key)))
+            OrderedDict.__setitem__(self, key, value)
+
+    def parse(self):
+        dict_cell, skipped = orig_parse(self)
+        # (with --cache the dictionary is pickled: leave it alone)
+        if type(dict_cell) is OrderedDict and self.cell_cache_path is None:
+            logged = LoggingDict()
+            for k, v in dict_cell.items():
+                OrderedDict.__setitem__(logged, k, v)
+            dict_cell = logged
+        return dict_cell, skipped
+
+    def init(self, int_cell, int_surf, d_vol, d_surf_t4, d_surf_mcnp, d_cells):
+        orig_init(self, int_cell, int_surf, d_vol, d_surf_t4, d_surf_mcnp,
+                  d_cells)
+        if cap.up is None and isinstance(d_cells, LoggingDict):
+            cap.conv_live = self
+            cap.up = {'cell_keys': [int(k) for k in d_cells],
+                      'items0': [(int(key), [int(side) for _, side in value])
+                                 for key, value in d_surf_t4.dic.items()],
+                      'free': (int(int_cell), int(int_surf)),
+                      'shapes': [], 'ops': []}
+
+    def setitem(self, key, value):
+        conv = cap.conv_live
+        if conv is not None and cap.up is not None \
+                and not cap.up.get('closed') and self is conv.dic_surf_t4:
+            try:
+                cap.up['shapes'].append([int(side) for _, side in value])
+            except Exception:      # pylint: disable=broad-except
+                cap.up_unsupported = 'shape of a transformed surface'
+        return orig_setitem(self, key, value)
+
+    def apply_trcl(self, trcls, geometry):
+        live = cap.up is not None and self is cap.conv_live \
+            and not cap.up.get('closed') and cap.ct_depth == 0
+        key = None
+        if live:
+            for k, v in self.dic_cell_mcnp.items():
+                if v.geometry is geometry:
+                    key = k
+                    break
+            try:
+                if key is None:
+                    raise Unsupported('apply_trcl on an unknown geometry')
+                geoms = cap.closure(self, key)
+                tids = [cap.tid(t) for t in (trcls or [])]
+            except Unsupported as exc:
+                cap.up_unsupported = str(exc)
+                live = False
+        cap.in_trcl = True
+        try:
+            result = orig_trcl(self, trcls, geometry)
+        finally:
+            cap.in_trcl = False
+        if live:
+            try:
+                cap.up['ops'].append(('trcl', int(key), tids, geoms,
+                                      gtree_of(result)))
+            except Unsupported as exc:
+                cap.up_unsupported = str(exc)
+        return result
+
+    def cell_transform(self, cell_key, transform, cache=True):
+        top = cap.up is not None and self is cap.conv_live \
+            and not cap.up.get('closed') and cap.ct_depth == 0 \
+            and not cap.in_trcl
+        geoms = None
+        if top:
+            try:
+                geoms = cap.closure(self, cell_key)
+                tid = cap.tid(transform)
+            except Unsupported as exc:
+                cap.up_unsupported = str(exc)
+                top = False
+        cap.ct_depth += 1
+        try:
+            result = orig_ct(self, cell_key, transform, cache)
+        finally:
+            cap.ct_depth -= 1
+        if top:
+            cap.up['ops'].append(('ct', int(cell_key), tid, bool(cache),
+                                  geoms, int(result)))
+        return result
+
     orig_dedup = WriteT4Geometry.remove_duplicate_surfaces
     orig_geom = t4main.convertMCNPGeometry
 
     def number_items(self):
         cap.n_number_items += 1
+        if cap.up is not None:
+            cap.up['closed'] = True
         cap.items = [(int(key), [int(side) for _, side in value])
                      for key, value in self.dic.items()]
         return orig_number(self)
@@ -122,6 +262,11 @@ def hooks(cap):
         return result
 
     CollectionDict.number_items = number_items
+    CollectionDict.__setitem__ = setitem
+    CellConversion.__init__ = init
+    CellConversion.apply_trcl = apply_trcl
+    CellConversion.cell_transform = cell_transform
+    ParseMCNPCell.parse = parse
     CellConversion.pot_convert = pot_convert
     WriteT4Geometry.remove_duplicate_surfaces = dedup
     t4main.convertMCNPGeometry = convert_geometry
@@ -129,6 +274,12 @@ def hooks(cap):
         yield cap
     finally:
         CollectionDict.number_items = orig_number
+        CollectionDict.__setitem__ = orig_setitem
+        CellConversion.__init__ = orig_init
+        CellConversion.apply_trcl = orig_trcl
+        CellConversion.cell_transform = orig_ct
+        ParseMCNPCell.parse = orig_parse
+        cap.conv_live = None
         CellConversion.pot_convert = orig_convert
         WriteT4Geometry.remove_duplicate_surfaces = orig_dedup
         t4main.convertMCNPGeometry = orig_geom
@@ -220,3 +371,39 @@ def coq_output(surfs, volumes):
                         clist(cz(x) for x in v[2]), coq_ops(v[3]),
                         cbool(v[4])) for v in volumes)
     return f'(mkOut {clist(cz(s) for s in surfs)} {lines})'
+
+
+def coq_geoms(geoms):
+    return clist(cpair(cz(k), coq_gtree(t)) for k, t in sorted(geoms.items()))
+
+
+def coq_uop(op):
+    if op[0] == 'fill':
+        return f'UFill {cz(op[1])}'
+    if op[0] == 'trcl':
+        _, key, tids, geoms, result = op
+        return (f'UTrcl {cz(key)} {clist(cz(t) for t in tids)} '
+                f'{coq_geoms(geoms)} ({coq_gtree(result)})')
+    _, key, tid, cache, geoms, result = op
+    return (f'UCT {cz(key)} {cz(tid)} {cbool(cache)} {coq_geoms(geoms)} '
+            f'{cz(result)}')
+
+
+def upstream_size(up):
+    size = len(up['items0']) + len(up['shapes'])
+    for op in up['ops']:
+        if op[0] == 'trcl':
+            size += sum(gtree_size(t) for t in op[3].values()) \
+                + gtree_size(op[4])
+        elif op[0] == 'ct':
+            size += sum(gtree_size(t) for t in op[4].values())
+    return size
+
+
+def coq_uinput(up):
+    keys = clist(cz(k) for k in up['cell_keys'])
+    items = clist(cpair(cz(k), clist(cz(s) for s in sides))
+                  for k, sides in up['items0'])
+    shapes = clist(clist(cz(s) for s in shape) for shape in up['shapes'])
+    ops = clist('(' + coq_uop(op) + ')' for op in up['ops'])
+    return f'(mkUIn {keys} {items} {shapes} {ops})'
